@@ -84,8 +84,25 @@ def model_options(case):
     return o
 
 
+_HOST_API = ("import sys, random\nsys.path.insert(0, sys.argv[1])\nimport oneliner\nfrom oneliner.config import Configs\n"
+             "c = Configs()\nc.unparser, c.expr_wrapper, c.if_style = sys.argv[3:6]\nrandom.seed(0)\n"
+             "src = open(sys.argv[2], 'r', encoding='utf8').read()\nsys.stdout.write(oneliner.convert_code_string(src, configs=c))\n")
+
+
+def host_exe(case):
+    """the interpreter that runs the command line: this one, or another host of the image"""
+    h = case.get("host")
+    if not h:
+        return sys.executable
+    from .. import interp
+    found = interp.discover()
+    if h not in found:
+        raise env.HarnessError("host interpreter %s not found" % h)
+    return found[h]
+
+
 def build_argv(case, infile, outfile):
-    argv = [sys.executable, "-m", "oneliner"]
+    argv = [host_exe(case), "-m", "oneliner"]
     items = []
     for n, v, joined in case["opts"]:
         items.append(["-C%s=%s" % (n, v)] if joined else ["-C", "%s=%s" % (n, v)])
@@ -165,11 +182,20 @@ def check_case(case, workdir):
         decoded = f.read()
     mo = model_options(case)
     key = (mo["unparser"], mo["expr_wrapper"], mo["if_style"])
-    try:
-        expected = env.convert(decoded, key, 0)
-        exp_err = None
-    except BaseException as e:
-        expected, exp_err = None, type(e).__name__
+    if case.get("host"):
+        # the library call under the SAME interpreter as the command line
+        q = subprocess.run([host_exe(case), "-c", _HOST_API, env.REPO, infile] + list(key), capture_output=True,
+                           env=envv, cwd=workdir, timeout=120)
+        if q.returncode == 0:
+            expected, exp_err = q.stdout.decode("utf8"), None
+        else:
+            expected, exp_err = None, q.stderr.decode("utf8", "replace").strip().split("\n")[-1][:80]
+    else:
+        try:
+            expected = env.convert(decoded, key, 0)
+            exp_err = None
+        except BaseException as e:
+            expected, exp_err = None, type(e).__name__
     if exp_err is not None:
         if p.returncode == 0:
             diffs.append("library call raises %s but the command line exits 0" % exp_err)
@@ -200,7 +226,7 @@ def check_case(case, workdir):
         return diffs, argv
     # and the text evaluates like the script
     o = run_code(decoded, "exec", want_globals=False)
-    if o["ok"]:
+    if o["ok"] and not case.get("host"):
         c = run_code(got_text.rstrip("\n") if case["out"] == "stdout" else got_text, "eval", want_globals=False)
         if not c["ok"]:
             diffs.append("the written expression raises %s %s" % (c["err"], c["errmsg"]))
@@ -250,19 +276,43 @@ def fixed_cases():
     return out
 
 
+def host_cases(host):
+    """the command line under another host interpreter: every option combination, the deprecated
+    --unparser spelling, and a stride of the invalid matrix"""
+    out = []
+    fixed = fixed_cases()
+    base = {"prog": "for_break", "eol": "\n", "tail": "", "opts": [], "dep": None, "pos": 0, "order": "opts-file-out",
+            "invalid": None, "host": host}
+    for i, key in enumerate(env.ALL_CFGS):
+        out.append(dict(base, out=("new", "stdout", "existing")[i % 3],
+                        opts=[(n, v, i % 2 == 0) for n, v in zip(("unparser", "expr_wrapper", "if_style"), key)]))
+    for dep in ("oneliner", "ast.unparse"):
+        for outmode in ("new", "stdout"):
+            out.append(dict(base, out=outmode, dep=dep))
+            out.append(dict(base, out=outmode, dep=dep, opts=[("expr_wrapper", "list", True)], prog="class_plain"))
+    for prog_name in ("fstring", "lambda_walrus", "comprehensions", "if_interrupt_else_tail"):
+        out.append(dict(base, prog=prog_name, out="new", opts=[("unparser", "oneliner", True)]))
+        out.append(dict(base, prog=prog_name, out="stdout"))
+    inv = [c for c in fixed if c.get("invalid") is not None]
+    out += [dict(c, host=host) for c in inv[::9]]
+    return out
+
+
 def _shard(item):
     seed, n, names = item
     part = new_part()
     workdir = tempfile.mkdtemp(prefix="olverif-c16-", dir="/tmp")
     try:
-        if isinstance(seed, tuple):   # ("fixed", shard, nshards)
-            cases = fixed_cases()
+        if isinstance(seed, tuple):   # ("fixed", shard, nshards) or ("host", host, shard, nshards)
+            cases = fixed_cases() if seed[0] == "fixed" else host_cases(seed[1])
+            if seed[0] == "host":
+                seed = ("host", seed[2], seed[3])
             for case in cases[seed[1]::seed[2]]:
                 part["evaluations"] += 1
                 diffs, argv = check_case(case, workdir)
                 inv = is_really_invalid(case)
-                part["classes"]["fixed:" + (case["invalid"][0] if inv else "valid")] += 1
-                part["nontrivial"].add(key_hash("fixed", case["prog"], case["out"], case["opts"], case["invalid"], case["order"], case["pos"]))
+                part["classes"][("host-%s:" % case["host"] if case.get("host") else "fixed:") + (case["invalid"][0] if inv else "valid")] += 1
+                part["nontrivial"].add(key_hash("fixed", case.get("host"), case["prog"], case["out"], case["opts"], case["invalid"], case["order"], case["pos"], case["dep"]))
                 if diffs and len(part["violations"]) < 3:
                     part["violations"].append({"payload": {"kind": "cli", "case": case}, "diffs": diffs,
                                                "what": "command line %s" % ("accepts/acts on an invalid option list" if inv else "result differs from the API")})
@@ -299,6 +349,11 @@ def run(report):
     per = 40 if quick else 600
     items = [(("fixed", i, env.NPROC), 0, names) for i in range(env.NPROC)]
     items += [(env.sub_seed(report.seed, "C16", i), per, names) for i in range(env.NPROC)]
+    from .. import hosts as _hosts
+    others = _hosts.available_other_hosts()
+    per_host = max(1, env.NPROC // max(1, len(others)))
+    items += [(("host", h, j, per_host), 0, names) for h in others for j in range(per_host)]
+    report.extra["other_hosts"] = others
     report.extra["fixed_matrix_cases"] = len(fixed_cases())
     for part in env.pmap(_shard, items):
         report.absorb(part)
